@@ -41,7 +41,7 @@
 *)
 From ASModel Require Import Base State Orderings_gen Step Run Progress Hist Local Inv InvTl InvProto InvStep Sum StepCases.
 From ASModel Require Import GenDefs Gen1 Gen2 Gen EnvDefs Env4 Env AccDefs Acc1 Acc2 Acc3 Acc4 Acc5 Acc6 Acc7 Acc.
-From ASModel Require Import ProtDefs Prot1 Prot11 Prot16 Prot Typed LinDefs Lin2 Lin Safe1 Safe2 Safe7 Safe8 Safe Main GenLen RunOKEx.
+From ASModel Require Import ProtDefs Prot1 Prot11 Prot16 Prot Typed LinDefs Lin2 Lin Safe1 Safe2 Safe7 Safe8 Safe Main GenLen ProgWF1 ProgWF RunOKEx.
 
 Theorem C01_dec : forall s a,
   match heap s a with
@@ -131,6 +131,17 @@ Theorem C01_gen_bound_from_length : forall cf inits progs sched,
   forall k, GenBound (run_state cf (init_state inits progs) (firstn k sched)).
 Proof. exact GenBound_len. Qed.
 
+(** Fully static scope ([ASModel.ProgWF]): [RunStatic] asks only for well-formed programs
+    ([progs_wf]: no handle is used by two threads and no command writes a destination that may be
+    non-empty - a decidable property of the program text), valid initial values, a run of fewer than
+    2^62 steps and a well-behaved allocator; every schedule. *)
+Theorem C01_no_use_after_free_static : forall cf inits progs sched,
+  RunStatic cf inits progs sched ->
+  NoFault (run_state cf (init_state inits progs) sched) /\
+  forall te, In te (snd (run cf (init_state inits progs) sched)) ->
+    forall a, ~ In (EvFault (FDeadInc a)) (snd te) /\ ~ In (EvFault (FDeadDec a)) (snd te).
+Proof. exact ProgWF.C01_no_use_after_free_static. Qed.
+
 Print Assumptions C01_dec.
 Print Assumptions C01_inc.
 Print Assumptions C01_fast_confirm.
@@ -156,3 +167,4 @@ Print Assumptions C01_no_dead_access.
 Print Assumptions C01_master_invariant.
 Print Assumptions C01_no_use_after_free_len.
 Print Assumptions C01_gen_bound_from_length.
+Print Assumptions C01_no_use_after_free_static.
